@@ -58,6 +58,14 @@ class Analysis(object):
                 if st == "static":
                     continue
                 out[n.n] = n.t
+        # temporaries introduced when the CFG lowered a macro (Py_CLEAR)
+        for nd in getattr(self.cfg, "nodes", {}).values() if isinstance(getattr(self.cfg, "nodes", None), dict) \
+                else getattr(self.cfg, "nodes", []):
+            e = getattr(nd, "e", None)
+            if e is not None and e.k == "DeclStmt" and e.mo == "Py_CLEAR":
+                for v in e.kids:
+                    if v.k == "VarDecl" and v.n:
+                        out[v.n] = v.t
         return out
 
     def _addr_taken(self):
